@@ -672,7 +672,25 @@ def c09(tier):
             t["oracles"] = ["Obs", "C09"]
             t["id"] = "c09-" + t["id"]
             tasks.append(t)
-    bounds = f"REP graphs x exit codes x cancel flags at {b[0]} preemption(s); cancel-jobs actor at every point; input grid at budget 0; resubmissions of submissions with a lost batch (all 8 flag combinations) and after cancel; invariant evaluated after every transition that touched a status file while the cluster lock is free"
+    # sync level L1: writers that touch the status/results files WITHOUT the lock are observed between
+    # their individual file operations (at L0 only between their transitions)
+    l1 = []
+    for t in c13_tasks(tier):
+        if t["cls"].startswith("resubmit-complete") and "-r0-" in t["id"] and ("-f110" in t["id"] or "-f111" in t["id"] or tier == "thorough") \
+                and ("chain3-" in t["id"] or "fork-" in t["id"] or tier == "thorough"):
+            t = dict(t)
+            t["scen"] = dict(t["scen"])
+            t["scen"]["level"] = 1
+            t["oracles"] = ["Obs", "C09"]
+            t["id"] = "c09-L1-" + t["id"]
+            l1.append(t)
+    for t in rep_tasks(["C09"], (0, 0) if tier == "quick" else (1, 0), graphs=["chain3", "fork", "indep3"], params=REP_PARAMS[:2],
+                       exit_sets=lambda n: [None, (1,) + (0,) * (n - 1)], cancel_sets=flag_sets):
+        t["scen"]["level"] = 1
+        t["id"] = "c09-L1-" + t["id"]
+        l1.append(t)
+    tasks += l1
+    bounds = f"REP graphs x exit codes x cancel flags at {b[0]} preemption(s); {len(l1)} scenarios (resubmissions, failures) at sync level L1; cancel-jobs actor at every point; input grid at budget 0; resubmissions of submissions with a lost batch (all 8 flag combinations) and after cancel; invariant evaluated after every transition that touched a status file while the cluster lock is free"
     return explore_check("C09", tier, tasks, S_RULE, COMMON_ASSUMPTIONS + ["at L0 writers that do not take the cluster lock are observed only between their transitions"], dict(bounds=bounds))
 
 
@@ -978,7 +996,26 @@ def c10(tier):
                     drivers = [dict(name=f"H{i + 1}", kind="handle", host=hosts[i], ops=list(s)) for i, s in enumerate((s1, s2, s3))]
                     tasks.append(f_task(f"c10-3x-{''.join(s1)}|{''.join(s2)}|{''.join(s3)}", "cluster", drivers, "C10", (3, 0)))
         bounds = "2 handles x every pair of sequences of length <=2 over the full alphabet {D,P,p,d,us(a|c),uc(a|c),m,h,g}, all interleavings; length 3 over the core alphabet (every 7th partner) at budget 3; 3 handles x length <=2 (subsample of partners, stated strides) at budget 3"
-    return explore_check("C10", tier, tasks, F_RULE, F_ASSUMPTIONS + ["reference for return values/final files: the same operations executed one at a time in lock-acquisition order by the real Cluster class (linearizability witness); mutual exclusion, promotion and stale-write clauses are independent of it"], dict(bounds=bounds))
+    # system-level half: the CLI commands' use of the role (try-submit-jobs shortcuts, user commands on the
+    # submitter's own host, rounds that overlap)
+    sb = (1, 0) if tier == "quick" else (2, 0)
+    st = rep_tasks(["C10S"], sb, graphs=["pair", "indep3", "chain3", "fork"] if tier == "quick" else None,
+                   params=[("sz1-mx2", dict(size=1, max_nodes=2)), ("sz1-mxN", dict(size=1, max_nodes=None))])
+    st += user_round_tasks(["C10S"], (0, 0) if tier == "quick" else (1, 0), ["pair", "indep3", "chain3"])
+    # a user command on an already complete submission, from the host of the last submitter and another one
+    for g in ("pair", "chain3"):
+        bb = S.REP[g]
+        for host in ("login1", "n101", "n102", "login5"):
+            actors = [rec_actor(len(bb)), dict(name="late", argv=["jade", "try-submit-jobs", "{out}"], host=host, guard="complete_any"),
+                      dict(name="late2", argv=["jade", "try-submit-jobs", "{out}"], host="login6", guard="complete_any", after="late")]
+            sc = mk_scen(bb, dict(size=1, max_nodes=None), actors=actors)
+            st.append(dict(id=f"late-{g}-{host}", scen=sc, oracles=["Obs", "C10S"], budget=(1, 0), cls="late-user-round"))
+    for t in st:
+        t["id"] = "c10s-" + t["id"]
+    tasks += st
+    bounds += ("; system level: the submitter field on disk across real submit-jobs / run-jobs / try-submit-jobs processes (REP graphs, "
+               f"{sb[0]} preemption(s); user-run try-submit-jobs at any point from the submitter's host and another; try-submit-jobs on a submission that is completing / complete)")
+    return explore_check("C10", tier, tasks, F_RULE + "; the system-level scenarios use the mode-S rule", F_ASSUMPTIONS + ["reference for return values/final files: the same operations executed one at a time in lock-acquisition order by the real Cluster class (linearizability witness); mutual exclusion, promotion and stale-write clauses are independent of it"], dict(bounds=bounds))
 
 
 # ------------------------------------------------------------------------------ C12
